@@ -209,6 +209,9 @@ pub struct SnapshotMetadata {
     pub pc: u32,
     #[serde(default)]
     pub power_state: PowerState,
+    /// Level of the ON key (held down) at the time of the snapshot.
+    #[serde(default)]
+    pub onk_level: bool,
     #[serde(default)]
     pub call_depth: u32,
     #[serde(default)]
@@ -250,6 +253,7 @@ impl Default for SnapshotMetadata {
             memory_writes: 0,
             pc: 0,
             power_state: PowerState::Running,
+            onk_level: false,
             call_depth: 0,
             call_sub_level: 0,
             temps: HashMap::new(),
@@ -1446,6 +1450,7 @@ impl CoreRuntime {
         metadata.call_depth = self.state.call_depth();
         metadata.call_sub_level = self.state.call_sub_level();
         metadata.power_state = self.state.power_state();
+        metadata.onk_level = self.onk_level;
         metadata.temps = collect_registers(&self.state)
             .into_iter()
             .filter(|(k, _)| k.starts_with("TEMP"))
@@ -1497,6 +1502,7 @@ impl CoreRuntime {
         self.set_device_model(model)?;
         apply_registers(&mut self.state, &loaded.registers);
         self.state.set_power_state(self.metadata.power_state);
+        self.onk_level = self.metadata.onk_level;
         self.fast_mode = self.metadata.fast_mode;
         self.memory
             .set_memory_counts(self.metadata.memory_reads, self.metadata.memory_writes);
